@@ -197,25 +197,37 @@ def adduct_homogeneity(ctx, rep, clause):
 
 
 def isotope_selection(ctx, rep, clause):
-    """element_setup.py: every table builder orders the isotopes of an element the same way (most abundant first),
-    so that "monoisotopic" means the same isotope in the mass table, the average table and the isotope pattern"""
+    """element_setup.py: every table builder takes as "monoisotopic" the most abundant isotope of an element
+    (first element after sorting by abundance, descending), so that the mass table, the average table, the isotope
+    patterns and the Hill order speak of the same isotope"""
     program = ctx.program
     n = 0
     for f in program.all_functions():
         if f.module.name != 'peptacular.element_setup':
             continue
+        sorted_vars = {}
         for node in walk_own(f.node):
             if isinstance(node, ast.Call) and isinstance(node.func, ast.Attribute) and node.func.attr == 'sort' and \
-                    'infos' in norm_stmt(node.func.value):
-                n += 1
+                    isinstance(node.func.value, ast.Name):
                 kws = {kw.arg: norm_stmt(kw.value) for kw in node.keywords}
-                key = kws.get('key', '')
-                ok = key.replace(' ', '') == 'lambdax:x.isotopic_composition' and kws.get('reverse') == 'True'
-                ob(rep, 'SIB-isotope-order', f.fq, f'`{norm_stmt(node)[:70]}` orders isotopes by abundance, descending',
-                   ok, 'most abundant isotope first (the monoisotopic one)',
-                   f'`{norm_stmt(node)}` orders the isotopes differently from its siblings: this table picks another '
-                   f'isotope as "monoisotopic" than the others (wrong for Se, Li, B, Fe, ...)', f.loc(node), clause)
-    rep.floor('SIB-isotope-order', 'isotope orderings in element_setup.py', n, 9)
+                key = kws.get('key', '').replace(' ', '')
+                ok = key == 'lambdax:x.isotopic_composition' and kws.get('reverse') == 'True'
+                sorted_vars[node.func.value.id] = (ok, node)
+        for node in walk_own(f.node):
+            if isinstance(node, ast.Assign) and isinstance(node.targets[0], ast.Name) and \
+                    node.targets[0].id.startswith('monoisotopic'):
+                n += 1
+                v = node.value
+                src = v.value.id if isinstance(v, ast.Subscript) and isinstance(v.value, ast.Name) and \
+                    isinstance(v.slice, ast.Constant) and v.slice.value == 0 else None
+                good = src is not None and sorted_vars.get(src, (False, None))[0] and \
+                    sorted_vars[src][1].lineno < node.lineno
+                ob(rep, 'SIB-isotope-order', f.fq, f'`{norm_stmt(node)}` is the most abundant isotope', good,
+                   'first element after sorting by isotopic_composition, descending',
+                   f'`{norm_stmt(node)}` does not take the first element of a list sorted by abundance (descending) as '
+                   f'its siblings do: this table calls another isotope "monoisotopic" than the others (differs for Se, '
+                   f'Li, B, Fe, ...)', f.loc(node), clause)
+    rep.floor('SIB-isotope-order', 'monoisotopic selections in element_setup.py', n, 8)
 
 
 def run(ctx, rep):
@@ -266,3 +278,5 @@ def run(ctx, rep):
 def check(ctx, rep):
     rep.explanation = EXPLANATION
     run(ctx, rep)
+    from .common import memo_rule
+    memo_rule(ctx, rep, 'C02g', ('peptacular.mass_calc', 'peptacular.chem.chem_util', 'peptacular.mods.mod_db', 'peptacular.glycan'))
